@@ -30,7 +30,7 @@ ANCHORS = [
 ]
 REQUIRED_ANCHORS = ANCHORS
 ITERABLES = ("list", "tuple", "set", "frozenset", "keys", "generator", "iterator")
-REQUIRED = ["subgraphs", "composes", "component_checks", "recompose_components", "cut_descriptor", "cut_change", "with_placeholder"] + [f"iterable:{k}" for k in ITERABLES] + ["cover:components", "cover:partition", "cover:overlap", "scale_cases", "mixed_class_pieces", "conflicting_overlaps"]
+REQUIRED = ["subgraphs", "composes", "component_checks", "recompose_components", "cut_descriptor", "cut_change", "with_placeholder"] + [f"iterable:{k}" for k in ITERABLES] + ["cover:components", "cover:partition", "cover:overlap", "scale_cases", "mixed_class_pieces", "conflicting_overlaps", "base_class_compose_of_derived_pieces"]
 
 
 def as_iterable(kind, S):
@@ -229,6 +229,24 @@ def check_case(ctx, case):
                 pieces[k], piece_pgs[k] = down, exp
                 downcast = True
                 ctx.count("mixed_class_pieces")
+    if bases and "scale" not in case and not downcast and rng.random() < 0.4:
+        # the other mixed-class direction: a BASE class composes pieces of this (derived) class - the result is a graph
+        # of the base class holding what that class can hold
+        B = rng.choice(bases)
+        expB = sem.pg_union(piece_pgs, B)
+        expB["cls"] = B
+        if not B.startswith("Stereo"):
+            expB["astereo"], expB["bstereo"] = {}, {}
+        expB["achange"], expB["bchange"] = {}, {}
+        ctx.count("base_class_compose_of_derived_pieces")
+        try:
+            compB = classes()[B].compose(list(pieces))
+            if type(compB).__name__ != B:
+                ctx.violate(f"C17/compose/{B}/of-{cls}-pieces/class", f"{B}.compose of {len(pieces)} {cls} piece(s) returned a {type(compB).__name__}", case)
+            else:
+                _check_graph(ctx, compB, expB, B, case, f"compose/{B}/of-{cls}-pieces/{cover}", f"{B}.compose of {len(parts)} {cls} pieces")
+        except Exception as e:  # noqa: BLE001
+            ctx.violate(f"C17/compose-raises:{type(e).__name__}/{B}/of-{cls}-pieces", f"{B}.compose of {cls} pieces raised {e!r}", case)
     want = sem.pg_union(piece_pgs, cls)
     ctx.case((sem.canon_key(pg), cover, len(parts)), len(parts) >= 2)
     ctx.count("composes")
